@@ -284,7 +284,8 @@ def main():
         hists, steps = (16, 400) if tier == "quick" else (64, 1200)
         outputs = []
         # corpus first: committed replays of known and fixed findings, minimised past failures
-        corpus = sorted(glob.glob(os.path.join(VERIF, "findings", "*.json")) + glob.glob(os.path.join(VERIF, "harness/corpus", "*.json")))
+        corpus = sorted(glob.glob(os.path.join(VERIF, "findings", "*.json")) + glob.glob(os.path.join(VERIF, "harness/corpus", "*.json")) +
+                        glob.glob(os.path.join(VERIF, "harness/corpus/seeds", "*.json")))
         cdir = os.path.join(ctx.dir, "corpus"); os.makedirs(cdir, exist_ok=True)
         for c in corpus:
             try:
